@@ -157,6 +157,17 @@ type injection struct {
 	th      *T
 	// fireAtEnd: run f when the target finishes without having reached the point
 	fireAtEnd bool
+	// untilDone: the target stays paused until the injected thread has finished (not only until it blocks)
+	untilDone bool
+}
+
+// InjectAtomic is InjectAt with the target held until f has run to completion: f happens "between two
+// statements" of the target thread, whatever blocking f does internally.
+func InjectAtomic(target string, k int, f func()) {
+	InjectAt(target, k, f)
+	if s := cur; s != nil && s.inj != nil {
+		s.inj.untilDone = true
+	}
 }
 
 // InjectAt arms an injection: when the thread named target passes k more scheduling points, f is started
@@ -404,7 +415,8 @@ func (t *T) enabled(s *Sched) bool {
 		}
 	}
 	if p := t.paused; p != nil {
-		if p.done || (p.op != nil && !p.enabled(s)) {
+		hold := s.inj != nil && s.inj.th == p && s.inj.untilDone
+		if p.done || (!hold && p.op != nil && !p.enabled(s)) {
 			t.paused = nil
 		} else {
 			return false
@@ -614,6 +626,20 @@ func Window(on bool) {
 	if cur != nil {
 		cur.window = on
 	}
+}
+
+// Atomically runs f without any scheduling point inside it (for harness observation hooks that call
+// instrumented accessors).
+func Atomically(f func()) {
+	s := cur
+	if s == nil {
+		f()
+		return
+	}
+	w := s.window
+	s.window = false
+	f()
+	s.window = w
 }
 
 // Choose is an environment / alphabet choice with n alternatives (0 is the default).
